@@ -94,6 +94,8 @@ def is_injected(e: BaseException, fired) -> bool:
             return True
         if "interrupted" in str(e) and any(s == "db_mid" for s, _ in fired):
             return True
+        if any(s == "udf_stop" for s, _ in fired) and (isinstance(e, StopIteration) or "StopIteration" in str(e)):
+            return True
         e = e.__cause__ or e.__context__ or getattr(e, "orig", None)
         seen += 1
     return False
